@@ -246,6 +246,21 @@ def i_hex(I, args, ins):
     return hex_of_bytes(I, I.slice_elems(args[0]))
 
 
+def i_nondet_string_nocolon(I, args, ins):
+    ctx = I.ctx
+    s = ctx.fresh_str(_label(args[0]), record=True)
+    ctx.add_inv(z3.Not(z3.Contains(s, z3.StringVal(':'))))
+    ctx.ghost.setdefault('nocolon', set()).add(str(s))
+    return s
+
+
+def i_nocolon(I, args, ins):
+    s = args[0]
+    if isinstance(s, str):
+        return ':' not in s
+    return z3.Not(z3.Contains(s, z3.StringVal(':')))
+
+
 def i_note(I, args, ins):
     I.ctx.event('note', _label(args[0]), args[1])
     return None
@@ -257,7 +272,7 @@ INTRINSICS = {
     'verifNondetByte': i_nondet_byte, 'verifNondetString': i_nondet_string, 'verifNondetBytes': i_nondet_bytes,
     'verifNondetTime': i_nondet_time, 'verifNondetTimeMs': i_nondet_time_ms,
     'verifNondetDuration': i_nondet_duration, 'verifChoose': i_choose, 'verifHavoc': i_havoc, 'verifNote': i_note,
-    'verifHex': i_hex, 'verifNondetURL': i_nondet_url, 'verifAnd': i_and, 'verifOr': i_or,
+    'verifHex': i_hex, 'verifNondetStringNoColon': i_nondet_string_nocolon, 'verifNoColon': i_nocolon, 'verifNondetURL': i_nondet_url, 'verifAnd': i_and, 'verifOr': i_or,
 }
 
 
@@ -474,6 +489,12 @@ def explore(harness, opts, pool=None, max_paths=200000, deadline=None, progress=
                 else:
                     still.append(a)
             inflight = still
+            if deadline and time.time() > deadline + opts.get('grace_s', 90) and inflight:
+                agg['complete'] = False
+                agg['abandoned'] = len(inflight)
+                inflight = []
+                agg['pool_dirty'] = True
+                break
             if not got:
                 time.sleep(0.005)
             if progress and got and agg['paths'] % 100 == 0:
